@@ -316,6 +316,11 @@ func (fv *FuncVC) wfVal(t Term, ty types.Type, bound Term, depth int) Term {
 			f = and(f, app("<", t, bound))
 		}
 		return f
+	case *types.Interface:
+		if bound != "" {
+			fv.e.decl("fn:iface_maxid", "(declare-fun iface_maxid (Iface) Int)")
+			return app("<", app("iface_maxid", t), bound)
+		}
 	case *types.Struct:
 		if u.NumFields() == 0 {
 			return "true"
